@@ -29,6 +29,7 @@ Catalogue ==
        GraphObj("K5", CompleteG(5)), GraphObj("cycle6", CycleG(6)),
        GraphObj("two-triangles", G(6, <<<<0, 1>>, <<1, 2>>, <<0, 2>>, <<3, 4>>, <<4, 5>>, <<3, 5>>>>)),
        GraphObj("path3+isolated", G(5, <<<<0, 1>>, <<1, 2>>>>)),
+       GraphObj("wheel5", G(6, <<<<0, 1>>, <<0, 2>>, <<0, 3>>, <<0, 4>>, <<0, 5>>, <<1, 2>>, <<2, 3>>, <<3, 4>>, <<4, 5>>, <<1, 5>>>>)),
        GraphObj("digon", G(2, <<<<0, 1>>, <<0, 1>>>>)),
        GraphObj("digon+triangle", G(5, <<<<0, 1>>, <<0, 1>>, <<2, 3>>, <<3, 4>>, <<2, 4>>>>)),
        GraphObj("two-digons", G(4, <<<<0, 1>>, <<0, 1>>, <<2, 3>>, <<2, 3>>>>)),
